@@ -2,12 +2,11 @@
 C16 -- VCF genotypes are turned into matching evidence for every variant kind.
 
 Decided: (R1) every loader that can emit an insertion observation also accounts for it in the
-indel-support table that the Coverage consumer gives precedence to; (R2) the `None` operation of an
-ignored record never reaches a table key or a method call; (R3) the genotype-arity / unmapped-base
-skip condition; (R5) VCF input fixes the structure to two default copies; (R6/R7) the loader folded
-whole on record kinds (support per copy, reference reduction at the variant's own position, allele
-indexing, 0-based positions, re-expression against the gene reference) -- this replaced the former
-syntactic constants rule R4.  Not decided: end-to-end genotyping of a VCF.
+indel-support table that the Coverage consumer gives precedence to; (R5) VCF input fixes the structure to
+two default copies; (R6/R7) the loader folded whole on record kinds (support per copy, reference reduction
+at the variant's own position, allele indexing, 0-based positions, re-expression against the gene reference,
+records of other shapes / arities / unmapped positions ignored without failing) -- this replaced the former
+syntactic rules R2 (Optional operation never reaches a sink), R3 (skip condition) and R4 (constants).  Not decided: end-to-end genotyping of a VCF.
 """
 
 import ast
@@ -23,9 +22,7 @@ PROPERTY = "C16"
 EXPLANATION = (
     "Sibling cross-check of the five Sample loaders against their consumer Coverage.__init__ (which drops parsed "
     "insertion observations whenever the indel table is non-empty): emits-insertion => fills-indel-table (R1). "
-    "Dataflow of the Optional operation returned by the VCF record converter to every sink, which must be "
-    "unreachable under op=None by CFG guard facts folded with that binding (R2). The skip condition of the record "
-    "loop folded over genotype lengths 0..4 and the unmapped-base flag (R3). The pseudo-read scheme (baseline = 2 x "
+    "The pseudo-read scheme (baseline = 2 x "
     "per-copy support = 2 x per-copy reference reduction at the variant's own position, allele index i reads entry i, "
     "0-based positions) is decided by folding the loader whole on record kinds (R6, thorough R7). "
     "VCF/pscan route builds the profile with the literal two-copy structure (R5)."
@@ -134,187 +131,6 @@ def r1(repo, res):
                key="insertion observations without indel-table bookkeeping")
 
 
-def _maybe_none_returns(fn):
-    """Indices of tuple components that a nested converter may return as None."""
-    idx = set()
-    for n in walk_local(fn):
-        if isinstance(n, ast.Return) and isinstance(n.value, ast.Tuple):
-            for i, e in enumerate(n.value.elts):
-                if isinstance(e, ast.Constant) and e.value is None:
-                    idx.add(i)
-    return idx
-
-
-def r2(repo, res):
-    f = repo.func("sam::Sample._load_vcf")
-    res.analysed(f)
-    conv = {}
-    for n in ast.walk(f):
-        if isinstance(n, ast.FunctionDef) and n is not f:
-            ix = _maybe_none_returns(n)
-            if ix:
-                conv[n.name] = ix
-    if not conv:
-        res.note("C16.R2: no record converter in _load_vcf returns a None component any more; rule vacuous")
-        res.ob("C16.R2", f, f, True, "no Optional component", "none", key="no-optional")
-        return
-    # containers fed by the converter
-    containers = set()
-    for n in walk_local(f):
-        val = None
-        tgt = None
-        if isinstance(n, ast.Assign) and len(n.targets) == 1:
-            tgt, val = n.targets[0], n.value
-        elif isinstance(n, ast.AugAssign):
-            tgt, val = n.target, n.value
-        elif isinstance(n, ast.Expr) and isinstance(n.value, ast.Call) and isinstance(n.value.func, ast.Attribute) \
-                and n.value.func.attr in ("append", "extend"):
-            tgt, val = n.value.func.value, n.value
-        if tgt is not None and isinstance(tgt, ast.Name) and val is not None:
-            if any(isinstance(c, ast.Call) and call_name(c) in conv for c in ast.walk(val)):
-                containers.add(tgt.id)
-    # names unpacked from those containers
-    maybe = {}  # name -> unpack node
-    for n in walk_local(f):
-        src, tgt = None, None
-        if isinstance(n, ast.Assign) and len(n.targets) == 1:
-            src, tgt = n.value, n.targets[0]
-        elif isinstance(n, ast.For):
-            src, tgt = n.iter, n.target
-        if src is None or not isinstance(tgt, ast.Tuple):
-            continue
-        direct = isinstance(src, ast.Call) and call_name(src) in conv
-        base = src.value if isinstance(src, ast.Subscript) else src
-        if direct or (isinstance(base, ast.Name) and base.id in containers):
-            for fn_, ix in conv.items():
-                for i in ix:
-                    if i < len(tgt.elts) and isinstance(tgt.elts[i], ast.Name):
-                        maybe[tgt.elts[i].id] = n
-    if not maybe:
-        res.err("C16.R2", "converter results are consumed in a shape the rule does not recognise")
-        return
-    c = cfg_of(f)
-    sinks = []
-    for n in walk_local(f):
-        for nm in maybe:
-            # table key / stored value / receiver of a method call
-            if isinstance(n, ast.Subscript) and isinstance(n.ctx, (ast.Store, ast.Del)) and \
-                    any(isinstance(x, ast.Name) and x.id == nm for x in ast.walk(n.slice)):
-                sinks.append((nm, n, "table key"))
-            elif isinstance(n, ast.AugAssign) and isinstance(n.target, ast.Subscript) and \
-                    any(isinstance(x, ast.Name) and x.id == nm for x in ast.walk(n.target.slice)):
-                sinks.append((nm, n.target, "table key"))
-            elif isinstance(n, ast.Assign) and isinstance(n.value, ast.Name) and n.value.id == nm and \
-                    any(isinstance(t, ast.Subscript) for t in n.targets):
-                sinks.append((nm, n, "stored value"))
-            elif isinstance(n, ast.Call) and isinstance(n.func, ast.Attribute) and isinstance(n.func.value, ast.Name) \
-                    and n.func.value.id == nm:
-                sinks.append((nm, n, "method receiver"))
-    # keep only sinks that the maybe-None definition actually reaches (the name is re-bound later on)
-    live = []
-    for nm, node, what in sinks:
-        d = maybe[nm]
-        did = c.branch_nodes(d)[0] if isinstance(d, ast.For) else c.node_of(d)
-        IN, _ = reaching(c, nm)
-        if did in IN[c.node_of(node)]:
-            live.append((nm, node, what))
-    sinks = live
-    res.floor("C16.R2", "sinks of the Optional operation", len(sinks), 2)
-    for nm, node, what in sinks:
-        node_id = c.node_of(node)
-        facts = c.guards(node_id)
-        dead = False
-        for t, pol in facts:
-            if not isinstance(t, ast.expr):
-                continue
-            try:
-                v = bool(Evaluator({nm: None}).ev(t))
-            except (Unfoldable, Raised):
-                continue
-            if v != pol:
-                dead = True
-        res.ob("C16.R2", f, node, dead,
-               expected=f"unreachable when {nm} is None (a None/falsy test dominates the {what})",
-               found="guarded" if dead else f"{nm} may be None here: " + ast.unparse(node)[:80],
-               clause="records of any other shape are ignored without failing the run",
-               key=f"{what}:{ast.unparse(node)[:60]}")
-
-
-def _record_loop(f):
-    for n in walk_local(f):
-        if isinstance(n, ast.For) and isinstance(n.iter, ast.Call) and call_name(n.iter).endswith(".fetch"):
-            return n
-    raise AnalysisError("VCF record loop (for ... in vcf.fetch(...)) not found in _load_vcf")
-
-
-def r3(repo, res):
-    f = repo.func("sam::Sample._load_vcf")
-    c = cfg_of(f)
-    loop = _record_loop(f)
-    inner = [n for n in walk_local(loop) if isinstance(n, ast.For) and n is not loop
-             and isinstance(n.iter, ast.Name)]
-    gt_loops = []
-    for n in inner:
-        # the loop over the (sorted, non-missing) genotype allele indices: its variable indexes the per-record list
-        if any(isinstance(s, ast.Subscript) and isinstance(s.slice, ast.Name) and isinstance(n.target, ast.Name)
-               and s.slice.id == n.target.id for s in ast.walk(n)):
-            gt_loops.append(n)
-    if not gt_loops:
-        res.err("C16.R3", "per-genotype loop not found")
-        return
-    gl = gt_loops[0]
-    gname = gl.iter.id
-    # definition of g drops missing alleles
-    gdef = [n for n in walk_local(loop) if isinstance(n, ast.Assign) and isinstance(n.targets[0], ast.Name)
-            and n.targets[0].id == gname]
-    drops_missing = bool(gdef) and "is not None" in ast.unparse(gdef[0].value) and "['GT']" in ast.unparse(gdef[0].value)
-    res.ob("C16.R3", f, gdef[0] if gdef else gl, drops_missing,
-           expected="genotype list = the sample's GT allele indices without missing ('.') entries",
-           found=ast.unparse(gdef[0].value) if gdef else "no definition", key="gt-definition")
-    facts = [(t, p) for t, p in c.guards(c.node_of(gl)) if isinstance(t, ast.expr)]
-    ref_base = None
-    for t, _ in facts:
-        for n in ast.walk(t):
-            if isinstance(n, ast.Compare) and isinstance(n.comparators[0], ast.Constant) and n.comparators[0].value == "N":
-                ref_base = ast.unparse(n.left)
-
-    def skipped(k, base):
-        env = {gname: list(range(k))}
-        if ref_base:
-            env[ref_base] = base
-        for t, pol in facts:
-            try:
-                v = bool(Evaluator(env).ev(t))
-            except (Unfoldable, Raised):
-                continue
-            if v != pol:
-                return True
-        return False
-
-    rows = []
-    ok = True
-    for k in range(0, 5):
-        for base in ("A", "N"):
-            s = skipped(k, base)
-            want = (k != 2) or (base == "N")
-            rows.append(f"len={k},ref={base}:{'skip' if s else 'use'}")
-            if s != want:
-                ok = False
-    res.ob("C16.R3", f, gl, ok and ref_base is not None,
-           expected="record skipped iff the genotype does not have exactly two called alleles or the reference base is unmapped ('N')",
-           found=" ".join(rows),
-           clause="non-diploid or missing genotypes are ignored; diploid calls are used",
-           key="arity-guard")
-
-
-def _int_const(node):
-    try:
-        v = ast.literal_eval(node)
-        return v if isinstance(v, int) else None
-    except Exception:
-        return None
-
-
 def r5(repo, res):
     """VCF / probe-table input: genotype() folded whole -- the structure stage is given the fixed two-copy structure, whatever
     the caller asked for, and the sample is loaded with that profile."""
@@ -399,8 +215,17 @@ def r6(repo, res):
         ("deletion whose record REF differs from the gene reference", [vcf_record(103, "TAG", ["T"], (0, 1))], None, {(104, "delTG"): 10}, {104: 10}),
         ("record without alternate allele (monomorphic site)", [vcf_record(102, "G", [], (0, 0))], None, {}, {}),
         ("half-missing genotype", [vcf_record(102, "G", ["T"], (None, 1))], None, {}, {}),
+        ("fully missing genotype", [vcf_record(102, "G", ["T"], (None, None))], None, {}, {}),
+        ("haploid genotype", [vcf_record(102, "G", ["T"], (1,))], None, {}, {}),
+        ("tetraploid genotype", [vcf_record(102, "G", ["T"], (0, 0, 1, 1))], None, {}, {}),
+        ("record at a position the gene has no base for", [vcf_record(98, "A", ["T"], (0, 1))], None, {}, {}),
         ("triploid genotype", [vcf_record(102, "G", ["T"], (0, 1, 1))], None, {}, {}),
         ("unrelated complex record", [vcf_record(102, "GT", ["AAA"], (0, 1))], None, {}, {}),
+        ("catalogued allele sharing a record with an allele of another shape, genotype on the catalogued one", [vcf_record(102, "G", ["T", "TGA"], (0, 1))], None,
+         {(102, "G>T"): 10}, {102: 10}),
+        ("the same record, genotype on both alternates (the odd one is ignored, the other counts)", [vcf_record(102, "G", ["T", "TGA"], (1, 2))], None,
+         {(102, "G>T"): 10}, {102: 10}),
+        ("symbolic second alternate as in gVCF-derived files", [vcf_record(102, "G", ["T", "<NON_REF>"], (0, 1))], None, {(102, "G>T"): 10}, {102: 10}),
         ("substitution written with a shared leading base (multi-allelic padding)", [vcf_record(102, "GT", ["G", "GA"], (0, 2))], None,
          {(103, "T>A"): 10}, {103: 10}),
         ("deletion-insertion (other shape)", [vcf_record(102, "GTT", ["GA"], (0, 1))], None, {}, {}),
@@ -588,15 +413,13 @@ def run(repo, res):
     r7_exhaustive(repo, res)
     r6(repo, res)
     r1(repo, res)
-    r2(repo, res)
-    r3(repo, res)
     r5(repo, res)
 
 
 MUTANTS = [
-    dict(name="R2 original defect (None test removed)", module="sam", expect="C16.R2",
+    dict(name="R2 original defect (None test removed)", module="sam", expect=["C16.R6", "C16.R7"],
          old='                    if op is None or op == "_":', new='                    if op == "_":'),
-    dict(name="R2 None test after the store", module="sam", expect="C16.R2",
+    dict(name="R2 None test after the store", module="sam", expect=["C16.R6", "C16.R7"],
          old='''                    if op is None or op == "_":
                         continue
                     muts[pos, op] += [(40, 40)] * 10''',
@@ -605,13 +428,13 @@ MUTANTS = [
                     muts[pos, op] += [(40, 40)] * 10
                     if op is None:
                         continue'''),
-    dict(name="R3 arity guard accepts haploid", module="sam", expect="C16.R3",
+    dict(name="R3 arity guard accepts haploid", module="sam", expect=["C16.R6", "C16.R7"],
          old="if len(g) != 2 or self.gene[read.pos - 1] == \"N\":", new="if len(g) > 2 or self.gene[read.pos - 1] == \"N\":"),
-    dict(name="R3 arity guard removed", module="sam", expect="C16.R3",
+    dict(name="R3 arity guard removed", module="sam", expect=["C16.R6", "C16.R7"],
          old="if len(g) != 2 or self.gene[read.pos - 1] == \"N\":", new="if self.gene[read.pos - 1] == \"N\":"),
-    dict(name="R3 'and' instead of 'or'", module="sam", expect="C16.R3",
+    dict(name="R3 'and' instead of 'or'", module="sam", expect=["C16.R6", "C16.R7"],
          old="if len(g) != 2 or self.gene[read.pos - 1] == \"N\":", new="if len(g) != 2 and self.gene[read.pos - 1] == \"N\":"),
-    dict(name="R3 missing alleles kept", module="sam", expect="C16.R3",
+    dict(name="R3 missing alleles kept", module="sam", expect=["C16.R6", "C16.R7"],
          old='g = sorted(y for y in read.samples[sample]["GT"] if y is not None)',
          new='g = sorted(y or 0 for y in read.samples[sample]["GT"])'),
     dict(name="R4 reference not reduced", module="sam", expect=["C16.R6", "C16.R7"],
@@ -663,6 +486,9 @@ MUTANTS = [
          old="        if self._indels and (mut.pos, mut.op) in self._indels:\n            return self._indels[mut.pos, mut.op][1]", new="        if self._indels:\n            return self._indels.get((mut.pos, mut.op), (0, 0))[1]"),
     dict(name="R6 alternates read from `alts` (None for a monomorphic record; seeded C16_c3 shape)", module="sam", expect="C16.R6",
          old="for a in read.alleles[1:]]", new="for a in read.alts]"),
+    dict(name="R6 a record with one allele of another shape is dropped whole (seeded C16_b3 shape)", module="sam", expect="C16.R6",
+         edits=[("                for gt in g:\n                    pos, op = hgvs[gt]\n                    if op is None or op == \"_\":",
+                 "                if any(op is None for _, op in hgvs):\n                    continue\n                for gt in g:\n                    pos, op = hgvs[gt]\n                    if op == \"_\":")]),
     dict(name="R6 op spelled from the record's REF (seeded C16_1 shape)", module="sam", expect="C16.R6",
          old='                return off + pos, f"{self.gene[off + pos]}>{alt[off]}"', new='                return off + pos, f"{ref[off]}>{alt[off]}"'),
     dict(name="R6 zero indel entries shadow VCF deletions (seeded C16_4 shape)", module="coverage", expect=["C16.R6"],
